@@ -124,3 +124,14 @@ Lemma never_declared_example :
   declared [(L "Uuid", L "number")] ex18_decl_all [TOpt (TCustom (L "Holder"))] = [L "Holder"; L "Leaf"] /\
   c18_decl_ok [(L "Uuid", L "number")] (declared [(L "Uuid", L "number")] ex18_decl_all [TOpt (TCustom (L "Holder"))]) = true.
 Proof. vm_compute. repeat split; reflexivity. Qed.
+
+(* the run-time frame oracle on two declaration lists is set equality *)
+Lemma decl_frame_oracle_exact a b : c18_decl_frame_ok a b = true <-> (forall x, In x a <-> In x b).
+Proof.
+  unfold c18_decl_frame_ok. rewrite andb_true_iff, !forallb_forall. split.
+  - intros [H1 H2] x. split; intros H; apply mem_In; auto.
+  - intros H. split; intros x Hx; apply mem_In; apply H; exact Hx.
+Qed.
+(* ... and the model satisfies it for every project, table and set of sites *)
+Lemma decl_frame_model zod m all sites : c18_decl_frame_ok (declared_ts zod m all sites) (declared_ts zod [] all sites) = true.
+Proof. apply decl_frame_oracle_exact. intros x. reflexivity. Qed.
